@@ -17,6 +17,12 @@ CLAIMED = {
         text="The single-byte claims (read-after-write, isolation, siblings untouched, lsb/mask table sanity) are Lean theorems over the masks regenerated from dims.COMPOSED_FIELDS, covering all 256 prior bytes and every in-range value, i.e. the property's literal quantifier; frame, last-write-wins and the history theorem are proved by induction for all columns, index lists and operation sequences. The model's assignCol is run against SubFieldView.__setitem__ exhaustively at byte level and on seeded histories over all index/value kinds.",
         note="Trusted: Lean kernel; translator tables; numpy fancy-index resolution (the harness resolves index expressions with numpy before handing positions to the model); numpy casting of the shifted value to u1. Loud failures outside the property (scalar given to a whole-dimension assignment, size-1 sequence to an int index) are skipped and counted.",
         design="6 (C09)"),
+    "C10": dict(
+        engine="bits",
+        technique="Lean 4 proof of the views' own logic (sub-field comparison for every integer constant, index/scale selection, min/max monotonicity) + differential correspondence against numpy for the delegated operators",
+        text="Theorems: the fast-path comparison of SubFieldView equals the comparison of the unpacked field value for every table mask, byte, operator and integer constant of any magnitude or sign (finite core by kernel evaluation, lifted by arithmetic); indexing commutes with materialisation; element-position indexing of scaled multi-element views uses that element's scale/offset; the views' min/max equal the extrema of the materialised values for every positive scale (exact arithmetic). Operators that ArrayView forwards to numpy are delegations: they are checked differentially against numpy itself (exhaustive for comparisons over constants and numpy scalar dtypes, seeded for the rest). Partial: numpy's operator semantics are not modelled.",
+        note="Trusted: Lean kernel; translator tables; numpy as the reference for delegated operators; IEEE monotonicity of x*s+o for s>0 (min/max on float64 follows from it; exact-arithmetic version is the theorem). Expressions that numpy rejects or that raise on the view are skipped and counted.",
+        design="6 (C10)"),
 }
 NOT_YET = "check not built yet in this round (planned per DESIGN.md section 10); not claimed until its theorems build and its check is quiet"
 
